@@ -1202,6 +1202,87 @@ def check_diff_patch(ctx, kind, arg, tag, rng):
         r2.close()
 
 
+DISALLOWED_CASES = [
+    # (synthetic description, lstopo --allow argument, what is disallowed)
+    ("pu:8", "0xfb", "middle PU"), ("pu:8", "0xfe", "first PU"), ("pu:8", "0x7f", "last PU"),
+    ("pack:2 core:2 pu:2", "0xdd", "one PU per package"), ("numa:4 pu:2", "nodeset=0xd", "a NUMA node"),
+    ("pack:2 [numa] [numa] pu:2", "nodeset=0xe", "first NUMA node"),
+]
+
+
+def check_diff_patch_disallowed(ctx, rng, tag):
+    """hwloc-diff / hwloc-patch on XML whose allowed sets are smaller than the complete sets: both tools must see the
+    same objects (INCLUDE_DISALLOWED), whatever the position of the edited object relative to the disallowed ones"""
+    lst, dif, pat = ctx.tools["lstopo-no-graphics"], ctx.tools["hwloc-diff"], ctx.tools["hwloc-patch"]
+    for k, (syn, allow, what) in enumerate(DISALLOWED_CASES):
+        fa = os.path.join(ctx.tmp, "dA-%s-%d.xml" % (tag, k))
+        rc, out, err = run_tool(lst, ["-i", syn, "--allow", allow, "--of", "xml", fa])
+        if rc != 0 or not os.path.exists(fa):
+            ctx.bump("disallowed-xml-not-produced")
+            continue
+        xa = open(fa, "rb").read().decode("latin-1")
+        # give every PU and NUMA node a name, so that renaming is a plain value change on both sides
+        xa = re.sub(r'<object type="PU" os_index="(\d+)"', lambda m: '<object type="PU" os_index="%s" name="pu-%s"' % (m.group(1), m.group(1)), xa)
+        xa = re.sub(r'<object type="NUMANode" os_index="(\d+)"', lambda m: '<object type="NUMANode" os_index="%s" name="node-%s"' % (m.group(1), m.group(1)), xa)
+        open(fa, "w", encoding="latin-1").write(xa)
+        names = re.findall(r'name="((?:pu|node)-\d+)"', xa)
+        mems = list(re.finditer(r'local_memory="(\d+)"', xa))
+        # one edit on every named object in turn (before, on and after the disallowed ones), and every node's memory
+        edits = [("name", n) for n in names] + [("mem", i) for i in range(len(mems))]
+        rng.shuffle(edits)
+        for j, (ek, target) in enumerate(edits[: (len(edits) if ctx.run.tier == "thorough" else 6)]):
+            if ek == "name":
+                xb = xa.replace('name="%s"' % target, 'name="renamed-%s"' % target)
+            else:
+                m = mems[target]
+                xb = xa[:m.start(1)] + str(int(m.group(1)) + 4096) + xa[m.end(1):]
+            fb = os.path.join(ctx.tmp, "dB-%s-%d-%d.xml" % (tag, k, j))
+            fd = os.path.join(ctx.tmp, "dD-%s-%d-%d.xml" % (tag, k, j))
+            fo = os.path.join(ctx.tmp, "dO-%s-%d-%d.xml" % (tag, k, j))
+            fr = os.path.join(ctx.tmp, "dR-%s-%d-%d.xml" % (tag, k, j))
+            open(fb, "w", encoding="latin-1").write(xb)
+            desc = "%s --allow %s (%s disallowed), edit %s %s" % (syn, allow, what, ek, target)
+            rtxt = "kind: input\ntool: hwloc-diff\nrecipe: lstopo-no-graphics -i \"%s\" --allow %s --of xml A.xml ; names added to PUs and NUMA nodes ; B.xml = A.xml with %s %s changed ; hwloc-diff A.xml B.xml D.xml ; hwloc-patch A.xml D.xml O.xml ; compare O.xml with B.xml\nA:\n%s\nB:\n%s\n" % (syn, allow, ek, target, xa[:4000], xb[:4000])
+            rc, out, err = run_tool(dif, [fa, fb, fd])
+            ctx.count("diff-disallowed|%s|%d" % (desc, rc), nontrivial=True, kind="diff-patch-disallowed", sample={"case": desc, "diff_rc": rc})
+            if crashed(rc, err):
+                ctx.violation("crash:diff-disallowed:%d:%s" % (k, target), "hwloc-diff crashed: " + desc, rtxt)
+                continue
+            if rc != 0:
+                ctx.violation("diff-disallowed-refused:%d:%s" % (k, ek), "hwloc-diff refuses a plain value change (rc=%d): %s: %s" % (rc, desc, err.decode(errors="replace")[-200:]), rtxt)
+                continue
+            rc, out, err = run_tool(pat, [fa, fd, fo])
+            if crashed(rc, err) or rc != 0:
+                ctx.violation("patch-disallowed-fails:%d:%s" % (k, ek), "hwloc-patch rc=%d on the diff hwloc-diff produced: %s" % (rc, desc), rtxt)
+                continue
+            r1, r2 = Ref(ctx.refexe), Ref(ctx.refexe)
+            try:
+                d1, d2 = r1.ask("topo diff xml " + fo), r2.ask("topo diff xml " + fb)
+                if not d1 or not d2 or d1[0] != "load rc=0" or d2[0] != "load rc=0":
+                    ctx.violation("patch-disallowed-unloadable:%d" % k, "patched topology does not load: " + desc, rtxt)
+                elif d1 != d2:
+                    ctx.violation("diff-patch-disallowed-differs:%d:%s:%s" % (k, ek, target),
+                                  "hwloc-patch(A, hwloc-diff(A,B)) != B: %s: %s" % (desc, first_diff(d2, d1)), rtxt)
+                else:
+                    ctx.bump("diff-patch-disallowed-equal")
+            finally:
+                r1.close()
+                r2.close()
+            rc, out, err = run_tool(pat, ["-R", fb, fd, fr])
+            if rc == 0:
+                r3, r4 = Ref(ctx.refexe), Ref(ctx.refexe)
+                try:
+                    if r3.ask("topo diff xml " + fr) != r4.ask("topo diff xml " + fa):
+                        ctx.violation("diff-patch-disallowed-reverse-differs:%d:%s:%s" % (k, ek, target), "hwloc-patch -R(B, diff) != A: " + desc, rtxt)
+                    else:
+                        ctx.bump("diff-patch-disallowed-reverse-equal")
+                finally:
+                    r3.close()
+                    r4.close()
+            else:
+                ctx.violation("patch-disallowed-reverse-fails:%d:%s" % (k, ek), "hwloc-patch -R rc=%d: %s" % (rc, desc), rtxt)
+
+
 def edit_xml(rng, x):
     """value-level edits hwloc-diff can express (info values, object names, memory / cache sizes)"""
     edits = []
@@ -1582,7 +1663,9 @@ def check(run, replay=None):
                 seeds.append(rng.getrandbits(64))
         lrng = random.Random(rng.getrandbits(64))
         with concurrent.futures.ThreadPoolExecutor(max_workers=max(4, C.NCPU)) as ex:
-            futs = [ex.submit(one, i) for i in range(len(topos))] + [ex.submit(check_lstopo_long_synthetic, ctx, lrng)]
+            drng = random.Random(rng.getrandbits(64))
+            futs = [ex.submit(one, i) for i in range(len(topos))] + [ex.submit(check_lstopo_long_synthetic, ctx, lrng),
+                                                                      ex.submit(check_diff_patch_disallowed, ctx, drng, "dis")]
             for f in futs:
                 f.result()
         run.cov["topologies"] = {"synthetic": sum(1 for t in topos if t[0] == "synthetic"), "xml": sum(1 for t in topos if t[0] == "xml")}
